@@ -213,7 +213,7 @@ func checksumOfCacheLink(ch LocalCache, linkPath string) (cksum string, ok bool)
 // reader to the cache while checksumming. If moveFile is not empty, the file
 // path it references is moved (i.e. renamed) to the cache after checksumming,
 // thus eliminating unnecessary file IO.
-func (ch LocalCache) commitBytes(reader io.Reader, moveFile string) (string, error) {
+func (ch LocalCache) commitBytes(reader io.Reader, moveFile string) (_ string, retErr error) {
 	// If there's no file we can move, we need to copy the bytes from reader to
 	// the cache.
 	if moveFile == "" {
@@ -222,6 +222,15 @@ func (ch LocalCache) commitBytes(reader io.Reader, moveFile string) (string, err
 			return "", err
 		}
 		defer tempFile.Close()
+		// Don't leave our temp file behind in the cache if we fail before (or
+		// while) moving it into place. (Only ever remove the temp file; a
+		// moveFile handed to us is the user's data.)
+		tempPath := tempFile.Name()
+		defer func() {
+			if retErr != nil {
+				os.Remove(tempPath)
+			}
+		}()
 		reader = io.TeeReader(reader, tempFile)
 		moveFile = tempFile.Name()
 	}
